@@ -180,11 +180,12 @@ func AnalyzeRun(p *load.Program, r *Roles, depth int) *RunResult {
 			batch := NewBatchMon(r, col, bc, life)
 			cfg := eng.Config{
 				Prog: p.Prog, Pkg: p.SSA, Fset: p.Fset, Root: r.FnRun, MaxDepth: depth,
-				Classify:      r.Classifier(Mode{SummarisePool: true, SummariseCfg: true, SummariseToSlice: true}),
-				IntLowerBound: budgetLowerBound(&e),
-				AfterEvent:    caseAssumer(bc),
-				Monitors:      []eng.Monitor{life, batch},
-				DebugFn:       DebugFn, DebugBlock: DebugBlock,
+				Classify:         r.Classifier(Mode{SummarisePool: true, SummariseCfg: true, SummariseToSlice: true}),
+				IntLowerBound:    budgetLowerBound(&e),
+				AfterEvent:       caseAssumer(bc),
+				Monitors:         []eng.Monitor{life, batch},
+				DropReturnStates: true,
+				DebugFn:          DebugFn, DebugBlock: DebugBlock,
 			}
 			e = eng.New(cfg)
 			e.Run()
